@@ -164,6 +164,36 @@ fn main() {
         });
     }
 
+    // ---------------------------------------------------------------- C16: a generated name that is a link is replaced, never written through
+    for mode in ["none", "zod"] {
+        rep.case("generated_names_that_are_links_are_replaced", &format!("--validation {} types.ts -> project source, commands.ts hard-linked to a hand-written file, index.ts / .typecache / graph files dangling links to places outside", mode), &|| {
+            let p = project(&root, &format!("links_{}", mode), Some(conf_plain));
+            let gp = p.join("src/generated"); let pp = p.join("src-tauri");
+            fs::create_dir_all(&gp).map_err(|e| e.to_string())?;
+            fs::create_dir_all(p.join("shared")).map_err(|e| e.to_string())?;
+            fs::write(p.join("shared/api.ts"), "export const handWritten = 1;\n").map_err(|e| e.to_string())?;
+            let link = |target: &str, name: &str| std::os::unix::fs::symlink(target, gp.join(name)).map_err(|e| format!("symlink {}: {}", name, e));
+            link("../../src-tauri/src/lib.rs", "types.ts")?;
+            fs::hard_link(p.join("shared/api.ts"), gp.join("commands.ts")).map_err(|e| format!("hard link: {}", e))?;
+            link("../../shared/brand_new.ts", "index.ts")?;
+            link("../../shared/cache.json", ".typecache")?;
+            link("../../shared/graph.txt", "dependency-graph.txt")?;
+            link("../main.ts", "dependency-graph.dot")?;
+            let outside = |m: BTreeMap<String, Vec<u8>>| -> BTreeMap<String, Vec<u8>> { m.into_iter().filter(|(f, _)| !f.starts_with("src/generated/")).collect() };
+            let before = outside(snapshot(&p));
+            for force in [true, false, true] {
+                let mut a = vec!["generate", "--project-path", pp.to_str().unwrap(), "--output-path", gp.to_str().unwrap(), "--validation", mode, "--visualize-deps"];
+                if force { a.push("--force"); }
+                let (code, text) = run(&cli, &p, &a)?;
+                if code != 0 && code != 1 { return Err(format!("generate ended with status {}: {}", code, text.chars().take(300).collect::<String>())); }
+                let after = outside(snapshot(&p));
+                for (f, bytes) in &before { if after.get(f) != Some(bytes) { return Err(format!("{} (outside the output directory) was modified or removed through a link under a generated name", f)); } }
+                for f in after.keys() { if !before.contains_key(f) { return Err(format!("{} was created outside the output directory through a link under a generated name", f)); } }
+            }
+            Ok("ok".into())
+        });
+    }
+
     // ---------------------------------------------------------------- C13 / C16: --visualize-deps and --verbose only add the two graph files
     for mode in ["none", "zod"] {
       for (lname, lib) in [("plain", LIB), ("alias", LIB_ALIAS)] {
@@ -194,6 +224,41 @@ fn main() {
             Ok("ok".into())
         });
       }
+    }
+
+    // ---------------------------------------------------------------- C13: every file of a run (cache and graph files too) is the same from run to run
+    for mode in ["none", "zod"] {
+        rep.case("repeated_runs_write_identical_files", &format!("--validation {} with five type mappings and --visualize-deps, 8 runs", mode), &|| {
+            let p = project(&root, &format!("rep_{}", mode), Some(conf_plain));
+            let mut lib = String::from("use serde::{Serialize, Deserialize};\n");
+            // a graph with many nodes and edges: T0 .. T9, each naming the three that follow it
+            for i in 0..10 { lib.push_str(&format!("#[derive(Serialize, Deserialize)]\npub struct T{} {{ pub a: Option<T{}>, pub b: Vec<T{}>, pub c: Option<Box<T{}>>, pub n: Stamp{} }}\n", i, i + 1, i + 2, i + 3, i % 5)); }
+            for i in 10..13 { lib.push_str(&format!("#[derive(Serialize, Deserialize)]\npub struct T{} {{ pub n: u32 }}\n", i)); }
+            for i in 0..4 { lib.push_str(&format!("#[tauri::command]\npub fn c{}(t: T{}, s: Stamp{}) -> T{} {{ todo!() }}\n", i, i, i, i + 4)); }
+            fs::write(p.join("src-tauri/src/lib.rs"), lib).map_err(|e| e.to_string())?;
+            fs::write(p.join("typegen.json"), format!("{{ \"project_path\": \"src-tauri\", \"output_path\": \"gen\", \"validation_library\": {:?}, \"type_mappings\": {{ \"Stamp0\": \"string\", \"Stamp1\": \"number\", \"Stamp2\": \"boolean\", \"Stamp3\": \"string\", \"Stamp4\": \"number\" }} }}", mode)).map_err(|e| e.to_string())?;
+            let strip = |m: BTreeMap<String, Vec<u8>>| -> BTreeMap<String, String> { m.into_iter().map(|(k, v)| (k, String::from_utf8_lossy(&v).lines().filter(|l| !has_timestamp(l)).collect::<Vec<_>>().join("\n"))).collect() };
+            let mut first: Option<BTreeMap<String, String>> = None;
+            for i in 0..8 {
+                let _ = fs::remove_dir_all(p.join("gen"));
+                let (code, text) = run(&cli, &p, &["generate", "--config", "typegen.json", "--visualize-deps", "--force"])?;
+                if code != 0 { return Err(format!("run {} ended with status {}: {}", i, code, text.chars().take(200).collect::<String>())); }
+                let files = strip(snapshot(&p.join("gen")));
+                if !files.contains_key(".typecache") || !files.contains_key("dependency-graph.txt") || !files.contains_key("dependency-graph.dot") { return Err(format!("run {} wrote {:?}", i, files.keys().collect::<Vec<_>>())); }
+                match &first {
+                    None => first = Some(files),
+                    Some(f0) => {
+                        if f0.keys().ne(files.keys()) { return Err(format!("run {} wrote {:?}, run 0 wrote {:?}", i, files.keys().collect::<Vec<_>>(), f0.keys().collect::<Vec<_>>())); }
+                        for (f, text) in f0 { if files.get(f) != Some(text) {
+                            let other = &files[f];
+                            let line = text.lines().zip(other.lines()).position(|(a, b)| a != b).unwrap_or(0);
+                            return Err(format!("{} of run {} differs from run 0 at line {}: `{}` / `{}`", f, i, line + 1, text.lines().nth(line).unwrap_or(""), other.lines().nth(line).unwrap_or("")));
+                        } }
+                    }
+                }
+            }
+            Ok("8 runs identical".into())
+        });
     }
 
     // ---------------------------------------------------------------- C16: a run that fails half-way leaves every foreign file alone
@@ -292,6 +357,9 @@ fn main() {
             let (a, b) = (exports(&gp)?, exports(&fp)?);
             if fp.join("events.ts").exists() { return Err("UNPARSED: a fresh run of the project without emit still writes events.ts".into()); }
             if a != b { return Err(format!("index.ts of the second run re-exports {:?}; the run wrote what a fresh run writes, whose index.ts re-exports {:?}", a, b)); }
+            // with no events there is no events module: the file of the earlier run does not stay next to an index.ts that no longer names it
+            let names = |d: &Path| -> Vec<String> { snapshot(d).into_keys().collect() };
+            if names(&gp) != names(&fp) { return Err(format!("after the second run the directory holds {:?}, a fresh run of the same sources writes {:?}", names(&gp), names(&fp))); }
             Ok(format!("{:?}", a))
         });
     }
